@@ -1,3 +1,4 @@
+from contextvars import ContextVar
 from dataclasses import dataclass, field
 import importlib.util
 import os
@@ -10,6 +11,17 @@ from jinja2 import FileSystemLoader
 from sigma.exceptions import SigmaSecurityError
 
 PYSIGMA_ALLOW_VARS_EXECUTION_ENV = "PYSIGMA_ALLOW_VARS_EXECUTION"
+
+# Set while a pipeline template is rendered. The template text is part of the (untrusted) pipeline
+# definition and the sandbox lets it call public methods of the objects in its context, including
+# constructors that accept the security opt-in arguments. Opt-ins are therefore not honoured for
+# anything that is created or used from inside a template.
+_template_rendering: ContextVar[bool] = ContextVar("pysigma_template_rendering", default=False)
+
+
+def template_rendering_active() -> bool:
+    """Return *True* while a pipeline template is being rendered."""
+    return _template_rendering.get()
 
 
 @dataclass
@@ -67,8 +79,18 @@ class TemplateBase:
             custom_vars = self._load_vars_from_file(self.vars)
             self.j2template.globals.update(custom_vars)
 
+    def render_template(self, **context: Any) -> str:
+        """Render the template with the given context."""
+        token = _template_rendering.set(True)
+        try:
+            return self.j2template.render(**context)
+        finally:
+            _template_rendering.reset(token)
+
     def _vars_execution_allowed(self) -> bool:
         """Check if vars execution is allowed via parameter or environment variable."""
+        if template_rendering_active():  # never from inside a template, see above
+            return False
         if self.allow_template_vars:
             return True
         return os.environ.get(PYSIGMA_ALLOW_VARS_EXECUTION_ENV, "").lower() in ("1", "true")
